@@ -6,9 +6,8 @@ use crate::oracle::Finding;
 use crate::texts::{Event, Req};
 use lsp_types::Url;
 use serde_json::{json, Value};
-use std::io::{BufRead, BufReader, Read, Write};
+use std::io::{Read, Write};
 use std::process::{Command, Stdio};
-use std::sync::mpsc;
 use std::time::{Duration, Instant};
 
 #[derive(Clone, Copy, Debug, PartialEq)]
@@ -91,56 +90,188 @@ enum Await {
     Nothing,
 }
 
-fn reader(stdout: std::process::ChildStdout, tx: mpsc::Sender<Value>) {
-    let mut r = BufReader::new(stdout);
-    loop {
-        let mut len = None;
+/// The child's three pipes, driven from one thread with poll(2): no helper threads, writes never
+/// block while the server is blocked writing to us.
+struct Io {
+    child: std::process::Child,
+    stdin: Option<std::process::ChildStdin>,
+    stdout: std::process::ChildStdout,
+    stderr: std::process::ChildStderr,
+    pending: Vec<u8>,
+    written: usize,
+    close_when_written: bool,
+    inbuf: Vec<u8>,
+    errbuf: Vec<u8>,
+    out_eof: bool,
+    err_eof: bool,
+    received: Vec<Value>,
+}
+
+impl Io {
+    /// Splits complete `Content-Length` frames off `inbuf`.
+    fn parse_frames(&mut self) {
         loop {
-            let mut line = String::new();
-            match r.read_line(&mut line) {
-                Ok(0) | Err(_) => return,
-                Ok(_) => {}
+            let Some(h) = self.inbuf.windows(4).position(|w| w == b"\r\n\r\n") else { return };
+            let header = String::from_utf8_lossy(&self.inbuf[..h]).to_string();
+            let len = header
+                .lines()
+                .find_map(|l| l.strip_prefix("Content-Length:").and_then(|v| v.trim().parse::<usize>().ok()));
+            let Some(len) = len else {
+                self.received.push(json!({"unparsable_header": header}));
+                self.inbuf.clear();
+                return;
+            };
+            if self.inbuf.len() < h + 4 + len {
+                return;
             }
-            let line = line.trim_end();
-            if line.is_empty() {
-                break;
+            let body: Vec<u8> = self.inbuf.drain(..h + 4 + len).skip(h + 4).collect();
+            self.received.push(serde_json::from_slice(&body).unwrap_or_else(|_| json!({"unparsable_body": String::from_utf8_lossy(&body)})));
+        }
+    }
+
+    /// One poll round: moves whatever can be moved. Returns false on timeout.
+    fn pump(&mut self, timeout: Duration) -> bool {
+        use std::os::fd::AsRawFd;
+        let mut fds: Vec<libc::pollfd> = vec![];
+        let mut roles = vec![];
+        if !self.out_eof {
+            fds.push(libc::pollfd { fd: self.stdout.as_raw_fd(), events: libc::POLLIN, revents: 0 });
+            roles.push(0);
+        }
+        if !self.err_eof {
+            fds.push(libc::pollfd { fd: self.stderr.as_raw_fd(), events: libc::POLLIN, revents: 0 });
+            roles.push(1);
+        }
+        if let (Some(si), true) = (&self.stdin, self.written < self.pending.len()) {
+            fds.push(libc::pollfd { fd: si.as_raw_fd(), events: libc::POLLOUT, revents: 0 });
+            roles.push(2);
+        }
+        if fds.is_empty() {
+            return true;
+        }
+        let ms = timeout.as_millis().min(i32::MAX as u128) as i32;
+        let n = unsafe { libc::poll(fds.as_mut_ptr(), fds.len() as libc::nfds_t, ms.max(1)) };
+        if n <= 0 {
+            return false;
+        }
+        let mut buf = [0u8; 65536];
+        for (fd, role) in fds.iter().zip(roles) {
+            if fd.revents == 0 {
+                continue;
             }
-            if let Some(v) = line.strip_prefix("Content-Length:") {
-                len = v.trim().parse::<usize>().ok();
+            match role {
+                0 => match self.stdout.read(&mut buf) {
+                    Ok(0) | Err(_) => self.out_eof = true,
+                    Ok(k) => {
+                        self.inbuf.extend_from_slice(&buf[..k]);
+                        self.parse_frames();
+                    }
+                },
+                1 => match self.stderr.read(&mut buf) {
+                    Ok(0) | Err(_) => self.err_eof = true,
+                    Ok(k) => self.errbuf.extend_from_slice(&buf[..k]),
+                },
+                _ => {
+                    let res = self.stdin.as_mut().unwrap().write(&self.pending[self.written..]);
+                    match res {
+                        Ok(k) => self.written += k,
+                        Err(e) if e.kind() == std::io::ErrorKind::WouldBlock => {}
+                        Err(_) => {
+                            // EPIPE: the server is gone; the analysis says so
+                            self.stdin = None;
+                            self.written = self.pending.len();
+                        }
+                    }
+                }
             }
         }
-        let Some(len) = len else { return };
-        let mut body = vec![0u8; len];
-        if r.read_exact(&mut body).is_err() {
-            return;
+        if self.written >= self.pending.len() && self.close_when_written {
+            self.stdin = None;
         }
-        let Ok(v) = serde_json::from_slice::<Value>(&body) else { return };
-        if tx.send(v).is_err() {
-            return;
+        true
+    }
+
+    /// Pumps until `cond` holds, stdout is at EOF, or the deadline passes (-> Err).
+    fn until(&mut self, what: &str, cond: &dyn Fn(&Io) -> bool) -> Result<(), String> {
+        let deadline = Instant::now() + TIMEOUT;
+        while !cond(self) && !self.out_eof {
+            let now = Instant::now();
+            if now >= deadline {
+                return Err(self.hang(what));
+            }
+            self.pump(deadline - now);
         }
+        Ok(())
+    }
+
+    fn send(&mut self, bytes: Vec<u8>) {
+        self.pending.extend(bytes);
+    }
+
+    fn hang(&mut self, what: &str) -> String {
+        let state = format!("{:?}", self.child.try_wait());
+        let mut threads = String::new();
+        if let Ok(rd) = std::fs::read_dir(format!("/proc/{}/task", self.child.id())) {
+            for t in rd.flatten() {
+                let f = |n: &str| std::fs::read_to_string(t.path().join(n)).unwrap_or_default().trim().replace('\n', " < ");
+                threads.push_str(&format!(" [{} wchan={} stack={}]", f("comm"), f("wchan"), f("stack")));
+            }
+        }
+        let _ = self.child.kill();
+        let _ = self.child.wait();
+        format!(
+            "lelwel-ls neither answered nor exited within {TIMEOUT:?} ({what}; process state before kill {state}; {} messages received, threads:{threads}, last: {})",
+            self.received.len(),
+            self.received.last().map_or("-".to_string(), |v| v.to_string().chars().take(200).collect())
+        )
     }
 }
 
 /// Runs one session. `Err` is a machinery failure (the server hangs, cannot be spawned, ...).
-pub fn run_session(ls: &std::path::Path, uris: &[Url; 2], s: &Session, pacing: Pacing) -> Result<SessionResult, String> {
+///
+/// `pin_cpu`: run all threads of the server on one CPU. The server's threads (stdin reader, main
+/// loop, analysis thread, stdout writer) hand every message over four times; on one CPU that is a
+/// context switch each, across CPUs a wake-up each, which in the sandbox costs 10x more than the
+/// work itself. Unpinned sessions keep real parallelism between the threads.
+pub fn run_session(ls: &std::path::Path, uris: &[Url; 2], s: &Session, pacing: Pacing, pin_cpu: Option<usize>) -> Result<SessionResult, String> {
     // RUST_BACKTRACE=0: with a backtrace every panic in the server costs seconds of symbolisation
-    let mut child = Command::new(ls)
-        .env("RUST_BACKTRACE", "0")
-        .stdin(Stdio::piped())
-        .stdout(Stdio::piped())
-        .stderr(Stdio::piped())
-        .spawn()
-        .map_err(|e| format!("cannot spawn {}: {e}", ls.display()))?;
-    let mut stdin = child.stdin.take().unwrap();
-    let stdout = child.stdout.take().unwrap();
-    let mut stderr = child.stderr.take().unwrap();
-    let (tx, rx) = mpsc::channel::<Value>();
-    let rd = std::thread::spawn(move || reader(stdout, tx));
-    let er = std::thread::spawn(move || {
-        let mut s = String::new();
-        let _ = stderr.read_to_string(&mut s);
-        s
-    });
+    let mut cmd = Command::new(ls);
+    cmd.env("RUST_BACKTRACE", "0").stdin(Stdio::piped()).stdout(Stdio::piped()).stderr(Stdio::piped());
+    // The child inherits the affinity of the spawning thread. (Not `pre_exec`: that makes std fork
+    // instead of posix_spawn, and forking a process with dozens of busy threads is a COW storm.)
+    let affinity = |cpus: std::ops::Range<usize>| unsafe {
+        let mut set: libc::cpu_set_t = std::mem::zeroed();
+        for c in cpus {
+            libc::CPU_SET(c, &mut set);
+        }
+        libc::sched_setaffinity(0, std::mem::size_of::<libc::cpu_set_t>(), &set);
+    };
+    // a pinned session keeps its driver thread on the same CPU: the two strictly alternate
+    match pin_cpu {
+        Some(cpu) => affinity(cpu..cpu + 1),
+        None => affinity(0..libc::CPU_SETSIZE as usize),
+    }
+    let mut child = cmd.spawn().map_err(|e| format!("cannot spawn {}: {e}", ls.display()))?;
+    let stdin = child.stdin.take().unwrap();
+    unsafe {
+        use std::os::fd::AsRawFd;
+        let fl = libc::fcntl(stdin.as_raw_fd(), libc::F_GETFL);
+        libc::fcntl(stdin.as_raw_fd(), libc::F_SETFL, fl | libc::O_NONBLOCK);
+    }
+    let mut io = Io {
+        stdout: child.stdout.take().unwrap(),
+        stderr: child.stderr.take().unwrap(),
+        stdin: Some(stdin),
+        child,
+        pending: vec![],
+        written: 0,
+        close_when_written: false,
+        inbuf: vec![],
+        errbuf: vec![],
+        out_eof: false,
+        err_eof: false,
+        received: vec![],
+    };
 
     // id 0 = initialize, ids 1..=n = steps (notifications simply do not use theirs), n+1 = shutdown
     let n = s.steps.len() as u64;
@@ -165,88 +296,59 @@ pub fn run_session(ls: &std::path::Path, uris: &[Url; 2], s: &Session, pacing: P
     msgs.push((json!({"jsonrpc": "2.0", "id": n + 1, "method": "shutdown", "params": null}), Await::Response(n + 1), false));
     msgs.push((json!({"jsonrpc": "2.0", "method": "exit", "params": null}), Await::Nothing, false));
 
-    let mut received: Vec<Value> = vec![];
-    let mut eof = false;
-    let hang = |child: &mut std::process::Child, what: &str, received: &Vec<Value>| -> String {
-        let state = format!("{:?}", child.try_wait());
-        let mut threads = String::new();
-        if let Ok(rd) = std::fs::read_dir(format!("/proc/{}/task", child.id())) {
-            for t in rd.flatten() {
-                let f = |n: &str| std::fs::read_to_string(t.path().join(n)).unwrap_or_default().trim().replace('\n', " < ");
-                threads.push_str(&format!(" [{} wchan={} syscall={} stack={}]", f("comm"), f("wchan"), f("syscall"), f("stack")));
-            }
-        }
-        let _ = child.kill();
-        let _ = child.wait();
-        format!(
-            "lelwel-ls neither answered nor exited within {TIMEOUT:?} ({what}; process state before kill {state}; {} messages received, threads:{threads}, last: {})",
-            received.len(),
-            received.last().map_or("-".to_string(), |v| v.to_string().chars().take(200).collect())
-        )
-    };
     match pacing {
         Pacing::Burst => {
-            let mut buf = vec![];
             for (m, _, _) in msgs.iter() {
-                buf.extend(frame(m));
+                io.send(frame(m));
             }
-            let _ = stdin.write_all(&buf).and_then(|_| stdin.flush());
         }
         Pacing::LockStep => {
-            let mut diags_seen = 0usize;
             let mut diags_wanted = 0usize;
             for (m, aw, idle) in msgs.iter() {
-                if stdin.write_all(&frame(m)).and_then(|_| stdin.flush()).is_err() {
+                if io.stdin.is_none() || io.out_eof {
                     break; // the server is gone; the analysis below says so
                 }
+                io.send(frame(m));
                 if *aw == Await::Diagnostics {
                     diags_wanted += 1;
                 }
-                let satisfied = |received: &Vec<Value>, diags_seen: usize| match aw {
-                    Await::Nothing => true,
-                    Await::Diagnostics => diags_seen >= diags_wanted,
-                    Await::Response(id) => received.iter().any(|v| v.get("method").is_none() && v["id"] == json!(id)),
-                };
-                while !eof && !satisfied(&received, diags_seen) {
-                    match rx.recv_timeout(TIMEOUT) {
-                        Ok(v) => {
-                            if v["method"] == "textDocument/publishDiagnostics" {
-                                diags_seen += 1;
+                let (aw, want) = (*aw, diags_wanted);
+                io.until(&format!("lock-step wait after sending {m}"), &move |io: &Io| {
+                    io.written >= io.pending.len()
+                        && match aw {
+                            Await::Nothing => true,
+                            Await::Diagnostics => {
+                                io.received.iter().filter(|v| v["method"] == "textDocument/publishDiagnostics").count() >= want
                             }
-                            received.push(v);
+                            Await::Response(id) => io.received.iter().any(|v| v.get("method").is_none() && v["id"] == json!(id)),
                         }
-                        Err(mpsc::RecvTimeoutError::Disconnected) => eof = true,
-                        Err(mpsc::RecvTimeoutError::Timeout) => return Err(hang(&mut child, &format!("lock-step wait after sending {m}"), &received)),
-                    }
-                }
-                if eof {
-                    break;
-                }
-                if *idle {
+                })?;
+                if *idle && !io.out_eof {
                     std::thread::sleep(IDLE);
                 }
             }
         }
     }
-    drop(stdin);
-    while !eof {
-        match rx.recv_timeout(TIMEOUT) {
-            Ok(v) => received.push(v),
-            Err(mpsc::RecvTimeoutError::Disconnected) => eof = true,
-            Err(mpsc::RecvTimeoutError::Timeout) => return Err(hang(&mut child, "waiting for end of output", &received)),
-        }
+    io.close_when_written = true;
+    if io.written >= io.pending.len() {
+        io.stdin = None;
+    }
+    io.until("waiting for end of output", &|_| false)?;
+    let deadline = Instant::now() + TIMEOUT;
+    while !io.err_eof && Instant::now() < deadline {
+        io.pump(Duration::from_millis(50));
     }
     let start = Instant::now();
     let status = loop {
-        match child.try_wait() {
+        match io.child.try_wait() {
             Ok(Some(st)) => break st,
-            Ok(None) if start.elapsed() > TIMEOUT => return Err(hang(&mut child, "waiting for exit", &received)),
+            Ok(None) if start.elapsed() > TIMEOUT => return Err(io.hang("waiting for exit")),
             Ok(None) => std::thread::sleep(Duration::from_millis(1)),
             Err(e) => return Err(format!("wait failed: {e}")),
         }
     };
-    let _ = rd.join();
-    let stderr = er.join().unwrap_or_default();
+    let stderr = String::from_utf8_lossy(&io.errbuf).to_string();
+    let received = std::mem::take(&mut io.received);
 
     // ---- analysis ----
     let mut res = SessionResult { exit_code: status.code(), stderr, ..Default::default() };
